@@ -373,6 +373,25 @@ func main() {
 		}
 	}
 
+	// ownership / hand-over facts (own.go)
+	var spReads, spEarly []spawnRead
+	for i := range specs {
+		rd, ea := wd.spawnOrder(specs[i].lean, decls[i])
+		spReads = append(spReads, rd...)
+		spEarly = append(spEarly, ea...)
+		for _, x := range rd {
+			names[x.x] = true
+		}
+	}
+	chunkBufs := wd.chunkBuffers(saveDecl)
+	stores := wd.scriptStores(commitTxsDecl)
+	for _, st := range stores {
+		names[st.field] = true
+	}
+	for _, n := range []string{"Tx.Spent_outputs", "UtxoTxOut.PKScr"} { // the model names them
+		names[n] = true
+	}
+
 	var nl []string
 	for n := range names {
 		nl = append(nl, n)
@@ -433,6 +452,41 @@ func main() {
 	facts++
 	fmt.Fprintf(&b, "/-- capacity of the `chan []byte` made in UnspentDB.save -/\ndef dataChanCap : Nat := %d\n\n", dataCap)
 	facts++
+	wrPairs := func(doc, name string, l []spawnRead) {
+		fmt.Fprintf(&b, "/-- %s -/\ndef %s : List (String × Nat) := [", doc, name)
+		for i, x := range l {
+			if i > 0 {
+				b.WriteString(", ")
+			}
+			fmt.Fprintf(&b, "(%q, %d)", x.fn, id[x.x])
+			facts++
+		}
+		b.WriteString("]\n")
+		for _, x := range l {
+			fmt.Fprintf(&b, "-- %s: %s\n", x.fn, x.x)
+		}
+		b.WriteString("\n")
+	}
+	wrPairs("(function, Type.field): a goroutine started by a `go` statement of the function accesses this field of a local object of the function", "spawnReads", spReads)
+	wrPairs("the subset of `spawnReads` whose object the spawning goroutine still WRITES after the start: in a loop (inside the object's scope) that encloses the `go` statement, or later in the object's scope", "earlySpawn", spEarly)
+	b.WriteString("/-- one entry per send on the `chan []byte` of UnspentDB.save: 0 = the buffer behind the slice is given up (the variable gets a\n    freshly allocated buffer before it is touched again), n ≥ 2 = it is one of a pool of n buffers that are used again,\n    1 = the same buffer is reused / not understood -/\ndef chunkBufs : List Nat := [")
+	for i, n := range chunkBufs {
+		if i > 0 {
+			b.WriteString(", ")
+		}
+		fmt.Fprintf(&b, "%d", n)
+		facts++
+	}
+	b.WriteString("]\n\n")
+	b.WriteString("/-- commitTxs: every store into a []byte field of a record type of package utxo (the change set handed to CommitBlockTxs), with the\n    origin of the stored slice: 0 = a fresh copy, 1 = memory of the block being processed, 2 = memory of a stored UTXO record (handed out\n    by a method of UnspentDB; freed and reused by the delete workers), 3 = not understood -/\ndef scriptStores : List (Nat × Nat) := [")
+	for i, st := range stores {
+		if i > 0 {
+			b.WriteString(", ")
+		}
+		fmt.Fprintf(&b, "(%d, %d)", id[st.field], st.origin)
+		facts++
+	}
+	b.WriteString("]\n\n")
 	b.WriteString("def all : List (String × List Ev) := [\n")
 	for i, fn := range order {
 		sep := ","
